@@ -69,6 +69,11 @@ def recreate_cases(tier):
                                                        nonorthogonal_spacing_method="poloidal_orthogonal_combined"),
              label="recreate lsn nonorth with non-orthogonal options"),
     ]
+    cases.append(
+        dict(family="recreate", geom="lsn", options=dict(base, target_all_poloidal_spacing_length=0.15,
+                                                       target_outer_lower_poloidal_spacing_length=None,
+                                                       psinorm_pf=0.93, psi_pf_lower=None),
+             label="recreate lsn orth with options explicitly set to None whose defaults are expressions"))
     if tier == "thorough":
         cases += [
             dict(family="recreate", geom="cdn", options=dict(base, ny_sol=6, nx_inter_sep=0, psi_divide_twopi=True, reverse_Bt=True),
@@ -175,7 +180,20 @@ def run(ctx):
             ctx.violation("provenance | hypnotoad_inputs_yaml is not loadable YAML of the option set",
                           dict(case=label, error=repr(e)[:300]), replay=dict(case=label))
             continue
+        # completeness: every option of the equilibrium, non-orthogonal and mesh factories
+        from hypnotoad.cases import tokamak
+        from hypnotoad.core.mesh import BoutMesh
+
+        want_keys = set(tokamak.TokamakEquilibrium.user_options_factory.defaults) | \
+            set(tokamak.TokamakEquilibrium.nonorthogonal_options_factory.defaults) | \
+            set(BoutMesh.user_options_factory.defaults)
+        missing = sorted(want_keys - set(y))
+        if missing:
+            ctx.violation("provenance | embedded option set is incomplete",
+                          dict(case=label, missing=missing[:12], n=len(missing)), replay=dict(case=label))
         for k, v in a.config["options"].items():
+            if k not in y:
+                continue
             if k in y and y[k] != v and not (isinstance(v, float) and abs(y[k] - v) < 1e-15):
                 ctx.violation("provenance | embedded option value differs from the one given",
                               dict(case=label, key=k, given=v, embedded=y[k]), replay=dict(case=label))
